@@ -3,8 +3,8 @@ import json, random
 import vlib, relgen, relcheck
 
 MANIFEST = dict(
-    text="Lean theorems: the split table regenerated from anchor.rs is sound w.r.t. SQL clause order (table_sound, decided on the "
-         "extracted table) and the back-to-front scan therefore never keeps two transforms in one SELECT that clause order forbids "
+    text="Lean theorems: the split table regenerated from anchor.rs is sound w.r.t. SQL clause order (table_sound_partial, decided on the "
+         "extracted table; the full statement is refuted by table_sound_full_counterexample: Take|Distinct) and the back-to-front scan therefore never keeps two transforms in one SELECT that clause order forbids "
          "(split_respects_clause_order, for pipelines of any length); clause-order evaluation of an assembled SELECT block equals "
          "pipeline-order evaluation of every admissible segment incl. WHERE/GROUP BY/HAVING/ORDER BY/LIMIT (assemble_correct, "
          "assemble_correct_agg); column-id redirects at a split commute with evaluation (split_glue_rename); documented edge cases "
@@ -63,7 +63,7 @@ def explore(ctx, label, rng, n, profile, target, no_append=False):
 
 def run(ctx):
     br = vlib.standard_proof_obligations(ctx, ["PrqlModel.Props.C01"], ["Split"],
-        required_theorems=["table_sound", "split_respects_clause_order", "atomic_is_suffix", "assemble_correct",
+        required_theorems=["table_sound_partial", "table_sound_full_counterexample", "split_respects_clause_order", "atomic_is_suffix", "assemble_correct",
                            "assemble_correct_agg", "split_glue_rename", "aggregate_one_row", "group_empty",
                            "count_counts_nulls", "sum_empty_is_zero"])
     ctx.rule = ("random well-scoped programs of the relational core (from/select/derive/filter/sort/take/aggregate/group/join/append, "
